@@ -487,7 +487,7 @@ func ruleR08(c *Ctx) {
 			c.r.bad("R16", "WithCollator stores the collator Transform reads", m.pos(wu.Decl.Pos()), "the configured collator does not reach the field ("+field+") that sort-key generation reads", "C08")
 		}
 	}
-	c.r.floor("R08", 6*3, "normalisation checks", "C01")
-	c.r.floor("R16", 6*2, "leaf role checks", "C08")
-	c.r.floor("R18", 6, "codec plumbing checks", "C09")
+	c.r.floor("R08", 12, "normalisation checks", "C01")
+	c.r.floor("R16", 8, "leaf role checks", "C08")
+	c.r.floor("R18", 3, "codec plumbing checks", "C09")
 }
